@@ -104,7 +104,7 @@ def main():
                     if a.runs:
                         cmd += ["--runs", str(a.runs)]
                     env = dict(os.environ, VERIF_REPO=WT, VERIF_EVIDENCE_DIR="/tmp/probsim-mutants/evidence",
-                               VERIF_REPLAY_DIR="/tmp/probsim-mutants/replays")
+                               VERIF_REPLAY_DIR="/tmp/probsim-mutants/replays", VERIF_WORK_DIR="/tmp/probsim-mutants/work")
                     r = sh(*cmd, env=env)
                     lines = [ln for ln in r.stdout.splitlines() if ln.startswith(("VIOLATION", "[" + pid + "] violation", "HARNESS"))]
                     expect = pid in props
